@@ -98,7 +98,9 @@ def packetRead (r : RState) (q : List RecvItem) : RState × List RecvItem × Rea
       | (.bytes d, q) =>
         match d with
         | [] => (r, q, some .connLost)
-        | c :: _ => ({ r with command := c.toNat }, q, none)
+        | c :: _ =>
+          -- packet type 0 is reserved, and 0 means "no command read yet": rejected at once
+          if c.toNat = 0 then (r, q, some .protocol) else ({ r with command := c.toNat }, q, none)
     else (r, q, none)
   match p1 with
   | (r, q, some out) => (r, q, out)
